@@ -33,4 +33,26 @@ PROPS = {
                         'interval >= 20ns (smaller intervals divide by zero in slide)',
                         'the instant used by the code lies inside the recorded clock bracket'],
     },
+    'C05': {
+        'props_file': 'props/C05.v',
+        'domains': [
+            {'name': 'match', 'quick': 4000, 'thorough': 120000, 'thorough_shards': 12},
+        ],
+        'corr': 'corr.match (CorrMatch.check_match: Match.core_match, the model of sheens match.go as configured by core/match.go, vs core.Match on the same triple, 4 repetitions)',
+        'rule': 'match: (pattern, data, bindings) with the pattern derived from random nested data (drop keys, replace leaves by fresh/repeated '
+                'variables, permute/drop array elements, one array variable), 1 in 4 mutated to a near miss, 1 in 4 with initial bindings, 1 in 10 malformed '
+                '(two array variables, property variable with siblings, optional variables, inequality names, ?-strings in data run in a child process); '
+                'non-trivial = inside the fragment and the pattern has at least one variable; distinct by hash of the triple',
+        'refuted': ['rematch_is_partial_refuted (D10)', 'inequality_names_refuted (D11)', 'var_like_data_refuted, match_diverges (D12)'],
+        'level_text': 'Coq theorem match_sound_complete over the executable model of the sheens matcher (arrays, property variables, bound and repeated '
+                      'variables, fuel included): on the documented fragment the returned binding sets are exactly the canonical assignments under which the '
+                      'pattern lays over the data as a partial match (sound, complete, total), for all patterns, data and initial bindings, no size bound. '
+                      'Tie to the code: core.Match on generated triples must return the model\'s multiset of bindings (and the brute-force spec\'s set) and must '
+                      'leave pattern, data and bindings unmodified (deep copies compared).',
+        'level_note': 'Trusted: Coq kernel, extraction, OCaml glue, Go harness; JSON fragment = integers, strings, booleans, null, nested maps/arrays '
+                      '(no non-integral floats); Go map iteration order modelled as key order (results compared as multisets). D10-D12 are defects of the '
+                      'sheens dependency and are exactly the fragment hypotheses.',
+        'technique': 'Coq proof (induction on fuel with a semantic invariant; injective-laying relation for arrays) + differential testing of core.Match against the extracted model and brute-force spec',
+        'assumptions': ['JSON numbers are integers (float64 integral values)', 'Go map iteration order does not affect the result multiset on the fragment (proved for the model: results characterised as a set)'],
+    },
 }
